@@ -1,18 +1,29 @@
 # Driver configuration for property C01
 PROP = dict(
     pkg="c01", level="exploration",
-    technique="model-based PBT: recursive reference MPT + abstract-state model (validated on mainnet fixtures), differential legacy vs trie2, insertion-order metamorphic relation",
+    technique="model-based PBT: recursive reference MPT + abstract-state model (validated on mainnet fixtures), differential legacy vs trie2, insertion-order metamorphic relation, commit sizes drawn around the size thresholds of the implementations",
     level_text=("Exploration: generated trie operation sequences and generated chains of state diffs (4 protocol versions, 2 state backends, "
                 "memory/Pebble with restarts) are compared with a reference commitment computed by plain recursion on the key set; "
-                "blocks are sealed with the reference root so any disagreement surfaces as a rejected valid block. Samples, no proof."),
+                "blocks are sealed with the reference root so any disagreement surfaces as a rejected valid block. A drawn fraction of the "
+                "cases makes single commits/blocks large for one trie (99, 100, 101 ... several hundred updates) so that the size-switched "
+                "code paths (trie2 parallel collector and parallel hasher above 100 pending updates, per-contract goroutine pools, "
+                "top-of-trie concurrent hashing of the legacy trie) run and their persisted result is read back after a reopen. Samples, no proof."),
     rule=("(a) rapid state machine put/overwrite/delete/zero-absent/commit/reopen/hash/get on core/trie and core/trie2 at heights 251/64/8/3, "
-          "Pedersen and Poseidon, root compared with ref.MPT after every hash/commit plus a permuted-insertion-order re-run; "
+          "Pedersen and Poseidon, root compared with ref.MPT after every hash/commit plus a permuted-insertion-order re-run (large sets: "
+          "hash/commit batches of 3, 50, 100, 101 or 250 insertions); 1 case in 32 adds up to two batches of 99..300 (thorough ..1000) "
+          "inserts/overwrites/deletes over derived key sets (spread, sequential, clustered, deep-prefix, mixed) applied between two commits, "
+          "usually committed and reopened at once, the following small ops and reads drawing keys of the batch; "
           "(b) generated chains stored through SanityCheckNewHeight+Store (reference-sealed) and through Finalise/Simulate on both backends, "
           "the trie2 node's contract records optionally rewritten between blocks in the storage-root-less format the head-state migration writes; "
-          "(c) temporary-trie backends for block commitments. Non-trivial = structural trie event (edge split, collapse, re-insert after delete, "
-          "zero write to absent key, reopen between updates) / multi-block chain with a structural diff; distinct = SHA-256 of the rendered op sequence."),
+          "1 chain in 20 contains blocks giving one trie exactly n updates (n around 100 as above): n slots of one contract, n touched contracts, "
+          "n class-trie leaves, overwrite/delete of an existing large storage, followed by restart or a new Blockchain object and later blocks "
+          "touching the same tries; (c) temporary-trie backends for block commitments, 1 block in 12 with 99..300 transactions or events. "
+          "Non-trivial = structural trie event (edge split, collapse, re-insert after delete, zero write to absent key, reopen between updates), "
+          "commit above the threshold / multi-block chain with a structural diff or with a block above the threshold followed by more blocks; "
+          "distinct = SHA-256 of the rendered op sequence."),
     assumptions=["felt arithmetic and Pedersen/Poseidon primitives trusted (reference model calls them)",
                  "reference model self-validated on mainnet state updates 0-2 at start (failure = exit 2)",
-                 "sequencer guarantees documented in core/state_update.go respected by the generator"],
+                 "sequencer guarantees documented in core/state_update.go respected by the generator",
+                 "keys/values of the large batches are a deterministic function (splitmix64) of drawn parameters (count, shape, 64-bit seed)"],
     runs=[dict(run="^TestProp")],
 )
